@@ -39,7 +39,9 @@ fuzz_target!(|data: &[u8]| {
                     if u.arbitrary().unwrap_or(false) {
                         s.push('-');
                     }
-                    s.push_str(&u.int_in_range(0..=999u32).unwrap_or(0).to_string());
+                    // two-digit exponents here: a three-digit one under a power operator makes values of 10^5 digits,
+                    // whose (quadratic) printing takes tens of seconds in this instrumented build
+                    s.push_str(&u.int_in_range(0..=99u32).unwrap_or(0).to_string());
                 }
             }
             _ => {
@@ -55,6 +57,23 @@ fuzz_target!(|data: &[u8]| {
     }
     inputs.push(sanitize(&s));
     for inp in inputs {
+        // same cost bound for the raw-bytes reading of the input
+        let has_power = inp.contains('^') || inp.contains("**");
+        let b = inp.as_bytes();
+        let three_digit_exp = (0..b.len()).any(|i| (b[i] == b'e' || b[i] == b'E') && i > 0 && b[i - 1].is_ascii_digit() && {
+            let mut j = i + 1;
+            if j < b.len() && (b[j] == b'-' || b[j] == b'+') {
+                j += 1;
+            }
+            let st = j;
+            while j < b.len() && b[j].is_ascii_digit() {
+                j += 1;
+            }
+            j - st >= 3
+        });
+        if has_power && three_digit_exp {
+            continue;
+        }
         if std::env::var("VERIF_FUZZ_PRINT").is_ok() {
             eprintln!("INPUT {}", serde_json::to_string(&inp).unwrap());
         }
